@@ -46,7 +46,7 @@ def run(tier):
     traces = pool_map("drv_c16", "run", items)
     res.traces = res.evaluations = len(traces)
     good = judge(res, traces, wd)
-    res.rule = ("programs = behaviours of spec/Access.tla: 9 scenarios (fresh model; three unbounded and three infeasible "
+    res.rule = ("programs = behaviours of spec/Access.tla: 11 scenarios (fresh model; four unbounded and four infeasible "
                 "constructions, solved; objects of a new model after another model was solved; a solved model as sanity) x "
                 "all sequences of %d accesses over {leaf/derived point, leaf/derived expression, constraint, LMI, metric} x "
                 "{eval, eval_dual}; plus every invalid option value; distinct = (scenario, access sequence)" % n)
